@@ -249,7 +249,7 @@ func (dcc *dataConditionsContainer) finalize(r *Reader, queryPartIndex int, prev
 					if d.queryParts.IsSet(uint(queryPartIndex)) && d.name != v {
 						continue
 					}
-					quoted += binaryregexp.QuoteMeta(d.value) + "|"
+					quoted += quoteVariable(d.value) + "|"
 				}
 				if quoted == "" {
 					badVarData[vdi] = struct{}{}
@@ -602,6 +602,21 @@ func (p *progressVariant) find(buffers [2][]byte, dir uint8) []int {
 	return res
 }
 
+// quoteVariable returns an expression that matches the captured bytes literally.
+// Bytes >= 0x80 are written as \xHH because the expression text must be valid UTF-8.
+func quoteVariable(value string) string {
+	quoted := binaryregexp.QuoteMeta(value)
+	res := make([]byte, 0, len(quoted))
+	for i := 0; i < len(quoted); i++ {
+		if b := quoted[i]; b >= 0x80 {
+			res = append(res, fmt.Sprintf(`\x%02x`, b)...)
+		} else {
+			res = append(res, b)
+		}
+	}
+	return string(res)
+}
+
 func (ps *progressGroup) prepare(r *regex, pIdx int, e *query.DataConditionElement, possibleSubQueries map[string]subQueryVariableData) (*progressVariant, error) {
 	p := &ps.variants[pIdx]
 	if p.regex != nil {
@@ -690,7 +705,7 @@ func (ps *progressGroup) prepare(r *regex, pIdx int, e *query.DataConditionEleme
 			if !ok {
 				return nil, fmt.Errorf("variable %q not defined", v.Name)
 			}
-			content = binaryregexp.QuoteMeta(content)
+			content = quoteVariable(content)
 		} else {
 			psq := possibleSubQueries[v.SubQuery]
 			vIdx := psq.variableIndex[v.Name]
